@@ -325,8 +325,19 @@ def cli_paths(texts):
             r = srv.req({"op": "fmt", "src": s})
             if "ok" in r and r["ok"].get("utf8") is not None and r["ok"]["utf8"] != s:
                 pool.append((s, r["ok"]["utf8"]))
-        for g in range(0, min(len(pool), 30) - 2, 3):
-            grp = pool[g:g + 3]
+        # three files that each carry comments of their own on different lines (what one file's comments are must not
+        # depend on the files formatted before it in the same invocation)
+        commented = ["// first file, line 1\nlet a = 1;\n// first file, line 3\nlet b = 2;\n\n// first file, after a gap\nlet c = [1,\n  // inside a list\n  2];\n",
+                     "let x = {a = 1,\n  // second file, inside a tuple\n  b = 2};\n",
+                     "// third file\n\n\nlet y = 1;\n// third file, last line\n"]
+        cpool = []
+        for s in commented:
+            r = srv.req({"op": "fmt", "src": s})
+            if "ok" not in r or r["ok"].get("utf8") is None:
+                raise RuntimeError("C05 harness: a commented form does not format: %r" % s)
+            cpool.append((s, r["ok"]["utf8"]))
+        groups = [cpool, cpool[::-1], [cpool[1], cpool[0], cpool[2]]] + [pool[g:g + 3] for g in range(0, min(len(pool), 30) - 2, 3)]
+        for g, grp in enumerate(groups):
             dd = os.path.join(d, "grp%d" % g)
             os.makedirs(os.path.join(dd, "sub", "deeper"))
             names = ["a.ucg", os.path.join("sub", "b.ucg"), os.path.join("sub", "deeper", "c.ucg")]
